@@ -35,3 +35,16 @@ pub fn sched_point(site: &'static str) {
         cb(site);
     }
 }
+
+/// A schedule point that is reached when the guard goes out of scope.
+///
+/// Bound at the top of a function whose body is one tail expression, it announces `site` after
+/// that expression has been evaluated and before the function returns, without touching the
+/// body itself.
+pub struct ExitPoint(pub &'static str);
+
+impl Drop for ExitPoint {
+    fn drop(&mut self) {
+        sched_point(self.0);
+    }
+}
